@@ -352,9 +352,16 @@ func scenarioC16(r *Run) {
 	if loss == "none" {
 		return
 	}
-	// close the first batch so that the histories are independent
-	for _, lc := range conns {
-		lc.App.Do(Op{Kind: "close"})
+	// Either the first batch is closed before the loss (independent histories), or its connections are
+	// still open when the session is lost ("at any time"): they die with it, and the next local
+	// connection must all the same get a new session.
+	if c.Chance(1, 2, "loss-with-open-connections") {
+		r.Count("loss_with_open_connections")
+		r.Info["loss_with_open_connections"] = true
+	} else {
+		for _, lc := range conns {
+			lc.App.Do(Op{Kind: "close"})
+		}
 	}
 	r.RunFor(5 * time.Second)
 	before := dials(sel)
